@@ -108,6 +108,22 @@ def injection(src_sort, dst_sort):
     return r[0] if r else None
 
 
+def typeof_axioms(formulas):
+    """type(x) is a class (never None) for every object x."""
+    from .vc import uses
+    ax = []
+    Ty = usort('Type')
+    for sn in list(sym._sorts):
+        name = 'type_of_' + sn
+        if uses(formulas, {name}):
+            S = usort(sn)
+            f = z3.Function(name, S, Ty)
+            x = z3.Const('tx', S)
+            ax.append(z3.ForAll([x], z3.Implies(x != none_of(S), f(x) != none_of(Ty)),
+                                patterns=[f(x)]))
+    return ax
+
+
 def injection_axioms():
     ax = []
     kinds = {}
